@@ -209,7 +209,7 @@ func runC05(c *Ctx) {
 	}
 	gets := CallsIn(del, "(*db.DB).Get")
 	if len(gets) == 1 {
-		getKey = T(gets[0].Call.Common().Args[1])
+		getKey = T(ArgK(gets[0].Call, 1))
 	}
 	norm := func(t *Term) string {
 		if t == nil {
@@ -256,14 +256,14 @@ func runC05(c *Ctx) {
 		c.Require("C05.R2 revert-uses-read-diff", "deleteBlock RevertDiff", p.InstrPos(s[0].Call), "RevertDiff only after the diff was found and decoded successfully", okG && okD, fmt.Sprintf("found=%v decoded=%v", okG, okD))
 		dec := CallsIn(del, "(*db/diffdb.Diff).Decode")
 		if len(dec) == 1 {
-			same := valueOrigin(dec[0].Call.Common().Args[0]) == valueOrigin(s[0].Call.Common().Args[2])
-			data := T(dec[0].Call.Common().Args[1])
+			same := valueOrigin(ArgK(dec[0].Call, 0)) == valueOrigin(ArgK(s[0].Call, 2))
+			data := T(ArgK(dec[0].Call, 1))
 			c.Require("C05.R2 revert-uses-read-diff", "deleteBlock Decode→RevertDiff object", p.InstrPos(s[0].Call), "the Diff object decoded is the one reverted, from the bytes read", same && IsResult("(*db.DB).Get", 0).Match(data), data.String())
 		}
 	}
 	// previous state root
 	if s := CallsIn(del, "(*consensus.stateReverter).Revert"); len(s) == 1 {
-		t := T(s[0].Call.Common().Args[1])
+		t := T(ArgK(s[0].Call, 1))
 		ok := t.Op == "field" && t.Sym == "StateRoot" && t.Args[0].Any(func(x *Term) bool {
 			return x.Op == "call" && strings.HasSuffix(x.Sym, "GetBlockHeaderByHeight") && strings.Contains(x.Args[1].String(), "Height - 1)")
 		})
@@ -298,8 +298,8 @@ func runC05(c *Ctx) {
 				if isMake {
 					okCopy := false
 					for _, call := range AllCalls(cacheFn) {
-						if CalleeName(call.Common()) == "builtin:copy" && stripConv(call.Common().Args[0]) == v {
-							okCopy = T(call.Common().Args[1]).Op == "param"
+						if CalleeName(call.Common()) == "builtin:copy" && stripConv(ArgK(call, 0)) == v {
+							okCopy = T(ArgK(call, 1)).Op == "param"
 						}
 					}
 					c.Require("C05.R4 init-is-private-copy", "cacheDB.cache copy", p.InstrPos(st), "the parameter's bytes are copied into init", okCopy, "")
@@ -355,7 +355,7 @@ func appendTargets(fn *ssa.Function, owner string) map[*ssa.Call]string {
 				case *ssa.Call:
 					if CalleeName(x.Common()) == "builtin:append" {
 						out[x] = field
-						back(x.Common().Args[0])
+						back(ArgK(x, 0))
 					}
 				}
 			}
@@ -427,7 +427,7 @@ func checkCommitAlgebraAs(c *Ctx, rule string, commit *ssa.Function) {
 		fs := ff.FactsAt(blk)
 		// the element appended
 		var elem ssa.Value
-		if sl, ok := call.Common().Args[1].(*ssa.Slice); ok {
+		if sl, ok := ArgK(call, 1).(*ssa.Slice); ok {
 			if al, ok := sl.X.(*ssa.Alloc); ok {
 				if es, ok := arrayElems(al); ok && len(es) == 1 {
 					elem = es[0]
@@ -440,9 +440,9 @@ func checkCommitAlgebraAs(c *Ctx, rule string, commit *ssa.Function) {
 		for _, in := range blk.Instrs {
 			if wc, ok := in.(*ssa.Call); ok && wc.Common().IsInvoke() && strings.HasSuffix(CalleeName(wc.Common()), "DatabaseWriter."+wc.Common().Method.Name()) {
 				wkind = wc.Common().Method.Name()
-				wkey = ff.Term(wc.Common().Args[0])
+				wkey = ff.Term(ArgK(wc, 0))
 				if len(wc.Common().Args) > 1 {
-					wval = ff.Term(wc.Common().Args[1])
+					wval = ff.Term(ArgK(wc, 1))
 				}
 			}
 		}
@@ -497,7 +497,7 @@ func checkRevertAlgebra(c *Ctx, revert *ssa.Function) {
 			continue
 		}
 		kind := call.Common().Method.Name()
-		key := tb.of(call.Common().Args[0], 0)
+		key := tb.of(ArgK(call, 0), 0)
 		field := ""
 		key.Walk(func(t *Term) bool {
 			if t.Op == "field" && t.Owner == "db/diffdb.Diff" {
@@ -509,7 +509,7 @@ func checkRevertAlgebra(c *Ctx, revert *ssa.Function) {
 		ok := want[field] == kind
 		detail := "writer." + kind + "(" + key.String()
 		if kind == "Set" && len(call.Common().Args) > 1 {
-			val := tb.of(call.Common().Args[1], 0)
+			val := tb.of(ArgK(call, 1), 0)
 			detail += ", " + val.String()
 			// Set(x.Key, x.Value) of the same element
 			ok = ok && key.Op == "field" && key.Sym == "Key" && val.Op == "field" && val.Sym == "Value" && key.Args[0].String() == val.Args[0].String()
